@@ -21,7 +21,10 @@ func c10Scenarios(tier string) []*hist.Scenario {
 		{"tree", []string{"init.tr"}, []string{"tr.insT1", "tr.delP0", "tr.sty0"}},
 	}
 	for _, f := range fams {
-		for _, op := range f.ops {
+		for oi, op := range f.ops {
+			if tier == "quick" && oi > 0 && f.name != "arr" {
+				continue
+			}
 			k, y, e, d := 2, 2, 2, 2
 			if tier == "thorough" {
 				k, y, e, d = 2, 3, 2, 3
